@@ -18,7 +18,31 @@
 
   1. arithmetic    `add_…`, `sub_…`, `mul_…`, `quo_…` (`…WithMode`, every valid mode byte), and the
                    default-mode entry points `add_default_…`, …
-  (to be continued below)
+  2. QuoRem        `quoRem_…` (quotient and remainder), `quoRem_default_…`
+  3. quantisation  `round_…`, `ceil_…`, `floor_…` (every `dp : Int64`), the package functions `pkg_round_…`,
+                   `pkg_trunc_…`, `pkg_ceil_…`, `pkg_floor_…`
+  4. scaling       `ldexp_…`
+  5. comparison    `cmp_…_num`, `cmpAbs_…`, `equal_…`, `compare_…`, `isZero_…`, `sign_…` (identical results,
+                   the documented panic of `Sign` on NaN included), `min_…`, `max_…`
+  6. elementary    `elem_encoding_independent_partial`: all ten unary functions on every operand the table
+                   `Spec.specialCase` covers (NaN, ±Inf, ±0, negative arguments of the logarithms and of Sqrt,
+                   Log1p at and below −1).  PARTIAL: for the general finite argument the library only has
+                   accuracy theorems (an error bound), from which independence of the encoding does not follow.
+  6b. Pow          `pow_encoding_independent_partial`: the exact cases (a)–(c) of C18 — `y = ±0`, `y = ±1`
+                   (any cohort member of 1), `x = +1`.  All exactly specified cases of `Pow` are in
+                   `D128/Props/C19c.lean` (`pow_encoding_independent_exact`, `…_table`).
+  7. formatting    `digits_encoding_independent`: `Decimal.digits` — the single source of digits of every text
+                   form — returns the same sign, digit count, digit bytes and exponent for all cohort members
+                   `digits_then_round_encoding_independent`: the `digits`;`round(prec)` pipeline of
+                   `Decimal.format` (every verb with a precision) yields the same sign, digit string and point
+                   position, for every `prec : Int64`
+  8. conversions   `int64_encoding_independent_num`, … , `frexp_encoding_independent_num` (the `sameNum` forms of
+                   the theorems of `D128/Props/C19.lean`), `payload_encoding_independent`,
+                   `float64_encoding_independent_partial`, `float32_…_partial` (PARTIAL: NaN, ±Inf and ±0 only; the
+                   finite non-zero path of `Float64` is only specified up to one binary ulp)
+  9. sign and class `abs_…`, `neg_…`, `signbit_…`, `isNaN_…`, `isInf_…`
+  (Canonical, Int64/Int32/Uint64/Uint32 and Frexp are in `D128/Props/C19.lean`; `Cmp` under `same` is
+   `Props.C04.cmp_encoding_independent`.)
 
   Proofs: the correctness theorems `Props.C01.add_correct`, … ("the result denotes `Spec.f 𝔳[d] 𝔳[o]`") and
   the congruence lemmas of `D128/Proofs/Cohort*.lean` ("`Spec.f` respects `same` / `sameNum`").
@@ -26,7 +50,22 @@
 import D128.Props.C01
 import D128.Props.C02
 import D128.Props.C02Quo
+import D128.Props.C03
+import D128.Props.C04
+import D128.Props.C06
+import D128.Props.C07
+import D128.Props.C08
+import D128.Props.C11b
+import D128.Props.C18
 import D128.Proofs.CohortArith
+import D128.Proofs.CohortQuoRem
+import D128.Proofs.CohortQuantize
+import D128.Proofs.CohortCmp
+import D128.Proofs.CohortElem
+import D128.Proofs.CohortDigits
+import D128.Proofs.CohortFloat
+import D128.Proofs.CohortConv
+import D128.Props.C19
 set_option autoImplicit false
 
 namespace Props.C19
@@ -189,5 +228,525 @@ theorem quo_default_encoding_independent_num (g : Globals) (d d' o o' : Gen.Deci
       (𝔳[r]).sameNum 𝔳[r'] = true := by
   rw [Props.C02.quo_default, Props.C02.quo_default]
   exact quo_encoding_independent_num d d' o o' _ m hm hd ho
+
+/-! ## 2. QuoRem -/
+
+/-- **C19 for `QuoRemWithMode`**: quotients and remainders have the same class, sign and value. -/
+theorem quoRem_encoding_independent (d d' o o' : Gen.Decimal) (rm : UInt8) (m : Spec.Mode)
+    (hm : Spec.Mode.ofNat? rm.toNat = some m)
+    (hd : (𝔳[d]).same 𝔳[d'] = true) (ho : (𝔳[o]).same 𝔳[o'] = true) :
+    ∃ q r q' r', Gen.Decimal.QuoRemWithMode d o rm = .ok (q, r) ∧
+      Gen.Decimal.QuoRemWithMode d' o' rm = .ok (q', r') ∧
+      (𝔳[q]).same 𝔳[q'] = true ∧ (𝔳[r]).same 𝔳[r'] = true := by
+  obtain ⟨q, r, h, hq, hr⟩ := Props.C03.quoRem_correct d o rm m hm
+  obtain ⟨q', r', h', hq', hr'⟩ := Props.C03.quoRem_correct d' o' rm m hm
+  obtain ⟨c1, c2⟩ := quoRem_congr m hd ho
+  exact ⟨q, r, q', r', h, h', glue hq hq' c1, glue hr hr' c2⟩
+
+theorem quoRem_encoding_independent_num (d d' o o' : Gen.Decimal) (rm : UInt8) (m : Spec.Mode)
+    (hm : Spec.Mode.ofNat? rm.toNat = some m)
+    (hd : (𝔳[d]).sameNum 𝔳[d'] = true) (ho : (𝔳[o]).sameNum 𝔳[o'] = true) :
+    ∃ q r q' r', Gen.Decimal.QuoRemWithMode d o rm = .ok (q, r) ∧
+      Gen.Decimal.QuoRemWithMode d' o' rm = .ok (q', r') ∧
+      (𝔳[q]).sameNum 𝔳[q'] = true ∧ (𝔳[r]).sameNum 𝔳[r'] = true := by
+  obtain ⟨q, r, h, hq, hr⟩ := Props.C03.quoRem_correct d o rm m hm
+  obtain ⟨q', r', h', hq', hr'⟩ := Props.C03.quoRem_correct d' o' rm m hm
+  obtain ⟨c1, c2⟩ := quoRem_congr_num m hd ho
+  exact ⟨q, r, q', r', h, h', glue_num hq hq' c1, glue_num hr hr' c2⟩
+
+theorem quoRem_default_encoding_independent (g : Globals) (d d' o o' : Gen.Decimal) (m : Spec.Mode)
+    (hm : Spec.Mode.ofNat? g.DefaultRoundingMode.toNat = some m)
+    (hd : (𝔳[d]).same 𝔳[d'] = true) (ho : (𝔳[o]).same 𝔳[o'] = true) :
+    ∃ q r q' r', Gen.Decimal.QuoRem g d o = .ok (q, r) ∧ Gen.Decimal.QuoRem g d' o' = .ok (q', r') ∧
+      (𝔳[q]).same 𝔳[q'] = true ∧ (𝔳[r]).same 𝔳[r'] = true := by
+  rw [Props.C03.quoRem_default, Props.C03.quoRem_default]
+  exact quoRem_encoding_independent d d' o o' _ m hm hd ho
+
+theorem quoRem_default_encoding_independent_num (g : Globals) (d d' o o' : Gen.Decimal) (m : Spec.Mode)
+    (hm : Spec.Mode.ofNat? g.DefaultRoundingMode.toNat = some m)
+    (hd : (𝔳[d]).sameNum 𝔳[d'] = true) (ho : (𝔳[o]).sameNum 𝔳[o'] = true) :
+    ∃ q r q' r', Gen.Decimal.QuoRem g d o = .ok (q, r) ∧ Gen.Decimal.QuoRem g d' o' = .ok (q', r') ∧
+      (𝔳[q]).sameNum 𝔳[q'] = true ∧ (𝔳[r]).sameNum 𝔳[r'] = true := by
+  rw [Props.C03.quoRem_default, Props.C03.quoRem_default]
+  exact quoRem_encoding_independent_num d d' o o' _ m hm hd ho
+
+/-! ## 3. Round, Ceil, Floor, Trunc -/
+
+/-- **C19 for `d.Round(dp, rm)`**, every `dp : Int64`. -/
+theorem round_encoding_independent (d d' : Gen.Decimal) (dp : Int64) (rm : UInt8) (m : Spec.Mode)
+    (hm : Spec.Mode.ofNat? rm.toNat = some m) (hd : (𝔳[d]).same 𝔳[d'] = true) :
+    ∃ r r', Gen.Decimal.Round d dp rm = .ok r ∧ Gen.Decimal.Round d' dp rm = .ok r' ∧
+      (𝔳[r]).same 𝔳[r'] = true := by
+  obtain ⟨r, hr, hs⟩ := Props.C08.round_dp_correct d dp rm m hm
+  obtain ⟨r', hr', hs'⟩ := Props.C08.round_dp_correct d' dp rm m hm
+  exact ⟨r, r', hr, hr', glue hs hs' (quantize_congr dp.toInt m hd)⟩
+
+theorem round_encoding_independent_num (d d' : Gen.Decimal) (dp : Int64) (rm : UInt8) (m : Spec.Mode)
+    (hm : Spec.Mode.ofNat? rm.toNat = some m) (hd : (𝔳[d]).sameNum 𝔳[d'] = true) :
+    ∃ r r', Gen.Decimal.Round d dp rm = .ok r ∧ Gen.Decimal.Round d' dp rm = .ok r' ∧
+      (𝔳[r]).sameNum 𝔳[r'] = true := by
+  obtain ⟨r, hr, hs⟩ := Props.C08.round_dp_correct d dp rm m hm
+  obtain ⟨r', hr', hs'⟩ := Props.C08.round_dp_correct d' dp rm m hm
+  exact ⟨r, r', hr, hr', glue_num hs hs' (quantize_congr_num dp.toInt m hd)⟩
+
+theorem ceil_encoding_independent (d d' : Gen.Decimal) (dp : Int64)
+    (hd : (𝔳[d]).same 𝔳[d'] = true) :
+    ∃ r r', Gen.Decimal.Ceil d dp = .ok r ∧ Gen.Decimal.Ceil d' dp = .ok r' ∧
+      (𝔳[r]).same 𝔳[r'] = true := by
+  obtain ⟨r, hr, hs⟩ := Props.C08.ceil_correct d dp
+  obtain ⟨r', hr', hs'⟩ := Props.C08.ceil_correct d' dp
+  exact ⟨r, r', hr, hr', glue hs hs' (ceilDp_congr dp.toInt hd)⟩
+
+theorem ceil_encoding_independent_num (d d' : Gen.Decimal) (dp : Int64)
+    (hd : (𝔳[d]).sameNum 𝔳[d'] = true) :
+    ∃ r r', Gen.Decimal.Ceil d dp = .ok r ∧ Gen.Decimal.Ceil d' dp = .ok r' ∧
+      (𝔳[r]).sameNum 𝔳[r'] = true := by
+  obtain ⟨r, hr, hs⟩ := Props.C08.ceil_correct d dp
+  obtain ⟨r', hr', hs'⟩ := Props.C08.ceil_correct d' dp
+  exact ⟨r, r', hr, hr', glue_num hs hs' (ceilDp_congr_num dp.toInt hd)⟩
+
+theorem floor_encoding_independent (d d' : Gen.Decimal) (dp : Int64)
+    (hd : (𝔳[d]).same 𝔳[d'] = true) :
+    ∃ r r', Gen.Decimal.Floor d dp = .ok r ∧ Gen.Decimal.Floor d' dp = .ok r' ∧
+      (𝔳[r]).same 𝔳[r'] = true := by
+  obtain ⟨r, hr, hs⟩ := Props.C08.floor_correct d dp
+  obtain ⟨r', hr', hs'⟩ := Props.C08.floor_correct d' dp
+  exact ⟨r, r', hr, hr', glue hs hs' (floorDp_congr dp.toInt hd)⟩
+
+theorem floor_encoding_independent_num (d d' : Gen.Decimal) (dp : Int64)
+    (hd : (𝔳[d]).sameNum 𝔳[d'] = true) :
+    ∃ r r', Gen.Decimal.Floor d dp = .ok r ∧ Gen.Decimal.Floor d' dp = .ok r' ∧
+      (𝔳[r]).sameNum 𝔳[r'] = true := by
+  obtain ⟨r, hr, hs⟩ := Props.C08.floor_correct d dp
+  obtain ⟨r', hr', hs'⟩ := Props.C08.floor_correct d' dp
+  exact ⟨r, r', hr, hr', glue_num hs hs' (floorDp_congr_num dp.toInt hd)⟩
+
+/-- the package functions `Round(d)`, `Trunc(d)`, `Ceil(d)`, `Floor(d)` -/
+theorem pkg_round_encoding_independent (d d' : Gen.Decimal) (hd : (𝔳[d]).same 𝔳[d'] = true) :
+    ∃ r r', Gen.Round d = .ok r ∧ Gen.Round d' = .ok r' ∧ (𝔳[r]).same 𝔳[r'] = true := by
+  rw [Props.C08.pkg_round, Props.C08.pkg_round]
+  exact round_encoding_independent d d' 0 1 .nearestAway rfl hd
+
+theorem pkg_trunc_encoding_independent (d d' : Gen.Decimal) (hd : (𝔳[d]).same 𝔳[d'] = true) :
+    ∃ r r', Gen.Trunc d = .ok r ∧ Gen.Trunc d' = .ok r' ∧ (𝔳[r]).same 𝔳[r'] = true := by
+  rw [Props.C08.pkg_trunc, Props.C08.pkg_trunc]
+  exact round_encoding_independent d d' 0 2 .toZero rfl hd
+
+theorem pkg_ceil_encoding_independent (d d' : Gen.Decimal) (hd : (𝔳[d]).same 𝔳[d'] = true) :
+    ∃ r r', Gen.Ceil d = .ok r ∧ Gen.Ceil d' = .ok r' ∧ (𝔳[r]).same 𝔳[r'] = true := by
+  rw [Props.C08.pkg_ceil, Props.C08.pkg_ceil]
+  exact ceil_encoding_independent d d' 0 hd
+
+theorem pkg_floor_encoding_independent (d d' : Gen.Decimal) (hd : (𝔳[d]).same 𝔳[d'] = true) :
+    ∃ r r', Gen.Floor d = .ok r ∧ Gen.Floor d' = .ok r' ∧ (𝔳[r]).same 𝔳[r'] = true := by
+  rw [Props.C08.pkg_floor, Props.C08.pkg_floor]
+  exact floor_encoding_independent d d' 0 hd
+
+/-! ## 4. Ldexp -/
+
+/-- **C19 for `Ldexp(d, exp)`**, every `exp : Int64`, under the default rounding mode. -/
+theorem ldexp_encoding_independent (g : Globals) (d d' : Gen.Decimal) (exp : Int64) (m : Spec.Mode)
+    (hm : Spec.Mode.ofNat? g.DefaultRoundingMode.toNat = some m) (hd : (𝔳[d]).same 𝔳[d'] = true) :
+    ∃ r r', Gen.Ldexp g d exp = .ok r ∧ Gen.Ldexp g d' exp = .ok r' ∧ (𝔳[r]).same 𝔳[r'] = true := by
+  obtain ⟨r, hr, hs⟩ := Props.C11b.ldexp_correct g d exp m hm
+  obtain ⟨r', hr', hs'⟩ := Props.C11b.ldexp_correct g d' exp m hm
+  exact ⟨r, r', hr, hr', glue hs hs' (ldexp_congr m exp.toInt hd)⟩
+
+theorem ldexp_encoding_independent_num (g : Globals) (d d' : Gen.Decimal) (exp : Int64) (m : Spec.Mode)
+    (hm : Spec.Mode.ofNat? g.DefaultRoundingMode.toNat = some m) (hd : (𝔳[d]).sameNum 𝔳[d'] = true) :
+    ∃ r r', Gen.Ldexp g d exp = .ok r ∧ Gen.Ldexp g d' exp = .ok r' ∧ (𝔳[r]).sameNum 𝔳[r'] = true := by
+  obtain ⟨r, hr, hs⟩ := Props.C11b.ldexp_correct g d exp m hm
+  obtain ⟨r', hr', hs'⟩ := Props.C11b.ldexp_correct g d' exp m hm
+  exact ⟨r, r', hr, hr', glue_num hs hs' (ldexp_congr_num m exp.toInt hd)⟩
+
+/-! ## 5. Comparisons: identical results -/
+
+/-- `Cmp` does not even distinguish two NaNs (both give "unordered"); `sameNum` operands suffice. -/
+theorem cmp_encoding_independent_num (d d' o o' : Gen.Decimal)
+    (hd : (𝔳[d]).sameNum 𝔳[d'] = true) (ho : (𝔳[o]).sameNum 𝔳[o'] = true) :
+    Gen.Decimal.Cmp d o = Gen.Decimal.Cmp d' o' := by
+  rw [Props.C04.cmp_correct, Props.C04.cmp_correct, cmp_congr_num hd ho]
+
+theorem cmpAbs_encoding_independent (d d' o o' : Gen.Decimal)
+    (hd : (𝔳[d]).sameNum 𝔳[d'] = true) (ho : (𝔳[o]).sameNum 𝔳[o'] = true) :
+    Gen.Decimal.CmpAbs d o = Gen.Decimal.CmpAbs d' o' := by
+  rw [Props.C04.cmpAbs_correct, Props.C04.cmpAbs_correct, cmpAbs_congr_num hd ho]
+
+theorem equal_encoding_independent (d d' o o' : Gen.Decimal)
+    (hd : (𝔳[d]).sameNum 𝔳[d'] = true) (ho : (𝔳[o]).sameNum 𝔳[o'] = true) :
+    Gen.Decimal.Equal d o = Gen.Decimal.Equal d' o' := by
+  rw [Props.C04.equal_correct, Props.C04.equal_correct, equal_congr_num hd ho]
+
+theorem compare_encoding_independent (d d' o o' : Gen.Decimal)
+    (hd : (𝔳[d]).sameNum 𝔳[d'] = true) (ho : (𝔳[o]).sameNum 𝔳[o'] = true) :
+    Gen.Compare d o = Gen.Compare d' o' := by
+  rw [Props.C04.compare_correct, Props.C04.compare_correct, compare_congr_num hd ho]
+
+theorem isZero_encoding_independent (d d' : Gen.Decimal) (hd : (𝔳[d]).sameNum 𝔳[d'] = true) :
+    Gen.Decimal.IsZero d = Gen.Decimal.IsZero d' := by
+  rw [Props.C04.isZero_correct, Props.C04.isZero_correct, isZero_congr_num hd]
+
+/-- `Sign`: the same sign, or the same documented panic (NaN) -/
+theorem sign_encoding_independent (d d' : Gen.Decimal) (hd : (𝔳[d]).sameNum 𝔳[d'] = true) :
+    Gen.Decimal.Sign d = Gen.Decimal.Sign d' := by
+  rw [Props.C04.sign_correct, Props.C04.sign_correct, sign_congr_num hd]
+
+theorem min_encoding_independent (d d' o o' : Gen.Decimal)
+    (hd : (𝔳[d]).same 𝔳[d'] = true) (ho : (𝔳[o]).same 𝔳[o'] = true) :
+    ∃ r r', Gen.Min d o = .ok r ∧ Gen.Min d' o' = .ok r' ∧ (𝔳[r]).same 𝔳[r'] = true := by
+  obtain ⟨r, hr, hs⟩ := Props.C04.min_correct d o
+  obtain ⟨r', hr', hs'⟩ := Props.C04.min_correct d' o'
+  exact ⟨r, r', hr, hr', glue hs hs' (minVal_congr hd ho)⟩
+
+theorem max_encoding_independent (d d' o o' : Gen.Decimal)
+    (hd : (𝔳[d]).same 𝔳[d'] = true) (ho : (𝔳[o]).same 𝔳[o'] = true) :
+    ∃ r r', Gen.Max d o = .ok r ∧ Gen.Max d' o' = .ok r' ∧ (𝔳[r]).same 𝔳[r'] = true := by
+  obtain ⟨r, hr, hs⟩ := Props.C04.max_correct d o
+  obtain ⟨r', hr', hs'⟩ := Props.C04.max_correct d' o'
+  exact ⟨r, r', hr, hr', glue hs hs' (maxVal_congr hd ho)⟩
+
+theorem min_encoding_independent_num (d d' o o' : Gen.Decimal)
+    (hd : (𝔳[d]).sameNum 𝔳[d'] = true) (ho : (𝔳[o]).sameNum 𝔳[o'] = true) :
+    ∃ r r', Gen.Min d o = .ok r ∧ Gen.Min d' o' = .ok r' ∧ (𝔳[r]).sameNum 𝔳[r'] = true := by
+  obtain ⟨r, hr, hs⟩ := Props.C04.min_correct d o
+  obtain ⟨r', hr', hs'⟩ := Props.C04.min_correct d' o'
+  exact ⟨r, r', hr, hr', glue_num hs hs' (minVal_congr_num hd ho)⟩
+
+theorem max_encoding_independent_num (d d' o o' : Gen.Decimal)
+    (hd : (𝔳[d]).sameNum 𝔳[d'] = true) (ho : (𝔳[o]).sameNum 𝔳[o'] = true) :
+    ∃ r r', Gen.Max d o = .ok r ∧ Gen.Max d' o' = .ok r' ∧ (𝔳[r]).sameNum 𝔳[r'] = true := by
+  obtain ⟨r, hr, hs⟩ := Props.C04.max_correct d o
+  obtain ⟨r', hr', hs'⟩ := Props.C04.max_correct d' o'
+  exact ⟨r, r', hr, hr', glue_num hs hs' (maxVal_congr_num hd ho)⟩
+
+/-! ## 6. Elementary functions on the operands of the special-case table -/
+
+/-- **C19 for Exp, Exp2, Exp10, Expm1, Log, Log2, Log10, Log1p, Sqrt, Cbrt — PARTIAL**: on every operand
+    for which the table `Spec.specialCase` fixes the result (NaN, ±Inf, ±0 with any exponent, negative
+    arguments of Log/Log2/Log10/Sqrt, arguments ≤ −1 of Log1p) the result does not depend on the encoding.
+    (`Expm1(−0)`, where the library deviates from the table, is covered too: every zero gives `+0`.)
+    Missing: the general finite argument, for which only error bounds are specified. -/
+theorem elem_encoding_independent_partial (fn : Spec.Fn) (g : Globals) (d d' : Gen.Decimal)
+    (w : Spec.Val) (hd : (𝔳[d]).same 𝔳[d'] = true) (hw : Spec.specialCase fn 𝔳[d] = some w) :
+    ∃ r r', Props.C15.impl fn g d = .ok r ∧ Props.C15.impl fn g d' = .ok r' ∧
+      (𝔳[r]).same 𝔳[r'] = true := by
+  have hz : Gen.Decimal.IsZero d' = Gen.Decimal.IsZero d :=
+    (isZero_encoding_independent d d' (sameNum_of_same hd)).symm
+  by_cases hx : fn = .expm1 ∧ Gen.Decimal.IsZero d = true
+  · obtain ⟨rfl, h0⟩ := hx
+    refine ⟨_, _, Props.C15.expm1_neg_zero g d h0, Props.C15.expm1_neg_zero g d' (hz.trans h0),
+      same_refl _⟩
+  · obtain ⟨w', hw', hww⟩ := specialCase_some_congr fn hd w hw
+    obtain ⟨r, hr, hs⟩ := Props.C15.elem_special fn g d w
+      (fun hf hzz => hx ⟨hf, hzz.1⟩) hw
+    obtain ⟨r', hr', hs'⟩ := Props.C15.elem_special fn g d' w'
+      (fun hf hzz => hx ⟨hf, hz ▸ hzz.1⟩) hw'
+    exact ⟨r, r', hr, hr', glue hs hs' hww⟩
+
+/-- the same for `sameNum` operands: a NaN may be replaced by any NaN (it is returned bit for bit) -/
+theorem elem_encoding_independent_num_partial (fn : Spec.Fn) (g : Globals) (d d' : Gen.Decimal)
+    (w : Spec.Val) (hd : (𝔳[d]).sameNum 𝔳[d'] = true) (hw : Spec.specialCase fn 𝔳[d] = some w) :
+    ∃ r r', Props.C15.impl fn g d = .ok r ∧ Props.C15.impl fn g d' = .ok r' ∧
+      (𝔳[r]).sameNum 𝔳[r'] = true := by
+  cases hn : (𝔳[d]).isNaN
+  · obtain ⟨r, r', h1, h2, h3⟩ :=
+      elem_encoding_independent_partial fn g d d' w (same_of_sameNum hd hn) hw
+    exact ⟨r, r', h1, h2, sameNum_of_same h3⟩
+  · have hn' : (𝔳[d']).isNaN = true := by rw [← isNaN_congr hd]; exact hn
+    rw [Enc.interp_isNaN] at hn hn'
+    exact ⟨d, d', Props.C15.elem_nan fn g d hn, Props.C15.elem_nan fn g d' hn', hd⟩
+
+/-! ## 6b. Pow on its exact cases -/
+
+private theorem absOne_congr {x x' : Spec.Val} (h : x.same x' = true) :
+    PowPf.absOne x = PowPf.absOne x' := by
+  rcases same_cases h with ⟨n, p, rfl, rfl⟩ | ⟨n, rfl, rfl⟩ | ⟨n, c, e, c', e', rfl, rfl, hm⟩
+  · rfl
+  · rfl
+  · simp only [PowPf.absOne, mag_congr hm]
+
+private theorem absOne_fin {x : Spec.Val} (h : PowPf.absOne x = true) :
+    ∃ n c e, x = .fin n c e ∧ Spec.mag c e = 1 := by
+  cases x with
+  | nan n p => simp [PowPf.absOne] at h
+  | inf n => simp [PowPf.absOne] at h
+  | fin n c e => exact ⟨n, c, e, rfl, by simpa [PowPf.absOne] using h⟩
+
+private theorem absOne_not_zero {x : Spec.Val} (h : PowPf.absOne x = true) : x.isZero = false := by
+  obtain ⟨n, c, e, rfl, h1⟩ := absOne_fin h
+  rw [isZero_fin]
+  rcases Nat.eq_zero_or_pos c with h0 | h0
+  · subst h0; rw [Sp.mag_zero] at h1; exact absurd h1 (by decide)
+  · simp; omega
+
+/-- **C19 for `PowWithMode` — PARTIAL**: on the exact cases of property C18 that have theorems —
+    `y = ±0` (result 1), `|y| = 1` in any encoding (result `x` resp. the rounded reciprocal `1/x`),
+    `x = +1` in any encoding (result 1) — for every `x` resp. `y` (NaN, ±Inf, ±0 included).
+    Missing: all other operand pairs (no correctness theorem for the general path of `Pow` yet). -/
+theorem pow_encoding_independent_partial (d d' o o' : Gen.Decimal) (rm : UInt8) (m : Spec.Mode)
+    (hm : Spec.Mode.ofNat? rm.toNat = some m)
+    (hd : (𝔳[d]).same 𝔳[d'] = true) (ho : (𝔳[o]).same 𝔳[o'] = true)
+    (hcase : (𝔳[o]).isZero = true ∨ PowPf.absOne 𝔳[o] = true ∨ (𝔳[d]).same Spec.posOne = true) :
+    ∃ r r', Gen.Decimal.PowWithMode d o rm = .ok r ∧ Gen.Decimal.PowWithMode d' o' rm = .ok r' ∧
+      (𝔳[r]).same 𝔳[r'] = true := by
+  have hzo : (𝔳[o']).isZero = (𝔳[o]).isZero := (isZero_congr (sameNum_of_same ho)).symm
+  -- (a) y = ±0
+  have caseA : (𝔳[o]).isZero = true → ∃ r r', Gen.Decimal.PowWithMode d o rm = .ok r ∧
+      Gen.Decimal.PowWithMode d' o' rm = .ok r' ∧ (𝔳[r]).same 𝔳[r'] = true := fun hz =>
+    ⟨_, _, (Props.C18.pow_exp_zero d o rm m hz).1,
+      (Props.C18.pow_exp_zero d' o' rm m (hzo.trans hz)).1, same_refl _⟩
+  -- (b) x = +1, y not zero
+  have caseB : (𝔳[o]).isZero = false → (𝔳[d]).same Spec.posOne = true →
+      ∃ r r', Gen.Decimal.PowWithMode d o rm = .ok r ∧
+      Gen.Decimal.PowWithMode d' o' rm = .ok r' ∧ (𝔳[r]).same 𝔳[r'] = true := by
+    intro hz h1
+    have h1' : (𝔳[d']).same Spec.posOne = true := same_trans (same_symm' hd) h1
+    rcases same_cases h1 with ⟨_, _, _, h2⟩ | ⟨_, _, h2⟩ | ⟨n, c, e, c1, e1, hx, h2, hmm⟩
+    · cases h2
+    · cases h2
+    · rcases same_cases h1' with ⟨_, _, _, h3⟩ | ⟨_, _, h3⟩ | ⟨n', c', e', c1', e1', hx', h3, hmm'⟩
+      · cases h3
+      · cases h3
+      · cases h2; cases h3
+        have e1 : Spec.mag c e = 1 := by rw [mag_congr hmm]; exact PowPf.mag_one_zero
+        have e2 : Spec.mag c' e' = 1 := by rw [mag_congr hmm']; exact PowPf.mag_one_zero
+        exact ⟨_, _, (Props.C18.pow_base_one d o rm m false c e hz hx e1 (Or.inl rfl)).1,
+          (Props.C18.pow_base_one d' o' rm m false c' e' (hzo.trans hz) hx' e2 (Or.inl rfl)).1,
+          same_refl _⟩
+  rcases hcase with hz | ha | h1
+  · exact caseA hz
+  · have hz : (𝔳[o]).isZero = false := absOne_not_zero ha
+    have ha' : PowPf.absOne 𝔳[o'] = true := by rw [← absOne_congr ho]; exact ha
+    obtain ⟨n, c, e, hy, hy1⟩ := absOne_fin ha
+    obtain ⟨n', c', e', hy', hy1'⟩ := absOne_fin ha'
+    have hnn : n = n' := by
+      have := neg_congr ho
+      rw [hy, hy'] at this; exact this
+    subst hnn
+    cases n
+    · -- y = +1
+      obtain ⟨r, hr, hs⟩ := Props.C18.pow_exp_one d o rm m c e hy hy1
+      obtain ⟨r', hr', hs'⟩ := Props.C18.pow_exp_one d' o' rm m c' e' hy' hy1'
+      exact ⟨r, r', hr, hr', glue hs hs' hd⟩
+    · -- y = −1
+      cases hb : (PowPf.absOne 𝔳[d] && !(𝔳[d]).neg)
+      · have hb' : (PowPf.absOne 𝔳[d'] && !(𝔳[d']).neg) = false := by
+          rw [← absOne_congr hd, ← neg_congr hd]; exact hb
+        obtain ⟨_, r, hr, hs⟩ := Props.C18.pow_exp_neg_one d o rm m c e
+          (Props.C02.quo_correct (Gen.one false) d rm m hm) hy hy1 hb
+        obtain ⟨_, r', hr', hs'⟩ := Props.C18.pow_exp_neg_one d' o' rm m c' e'
+          (Props.C02.quo_correct (Gen.one false) d' rm m hm) hy' hy1' hb'
+        exact ⟨r, r', hr, hr', glue hs hs' (quo_congr m (same_refl _) hd)⟩
+      · refine caseB hz ?_
+        rw [PowPf.same_posOne, Bool.and_comm]; exact hb
+  · cases hz : (𝔳[o]).isZero
+    · exact caseB hz h1
+    · exact caseA hz
+
+/-! ## 7. Formatting: the digit record -/
+
+/-- **C19 for text output.**  `Decimal.digits` is the single source of digits of every text form (String,
+    MarshalText, `%v`, Format/Append with any verb and precision).  For two finite patterns of the same
+    value — whatever the prior contents of the two `digits` records — it returns the same sign, the same
+    number of digits, the same digit bytes and the same exponent (hence the same decimal-point position
+    `exp + ndig`): the records agree in everything the formatting code reads. -/
+theorem digits_encoding_independent (d d' : Gen.Decimal) (digs digs' : Gen.digits)
+    (hf : (𝔳[d]).isFin = true) (hd : (𝔳[d]).same 𝔳[d'] = true) :
+    ∃ r r', Gen.Decimal.digits_ d digs = .ok r ∧ Gen.Decimal.digits_ d' digs' = .ok r' ∧
+      r.neg = r'.neg ∧ r.ndig = r'.ndig ∧ r.exp = r'.exp ∧
+      (∀ t, t < r.ndig.toInt.toNat → Dg.at_ r.dig t = Dg.at_ r'.dig t) ∧
+      Dg.slice r = Dg.slice r' := by
+  rcases same_cases hd with ⟨n, p, h1, _⟩ | ⟨n, h1, _⟩ | ⟨n, c, e, c', e', h1, h2, hm⟩
+  · rw [h1] at hf; cases hf
+  · rw [h1] at hf; cases hf
+  · obtain ⟨r, hr, hn, hwf, hs⟩ := Props.C06.digits_spec d digs n c e h1
+    obtain ⟨r', hr', hn', hwf', hs'⟩ := Props.C06.digits_spec d' digs' n c' e' h2
+    have hsl : Dg.slice r = Dg.slice r' := by rw [hs, hs', sliceOf_congr hm]
+    have hds : Dg.msd r.dig r.ndig.toInt.toNat = Dg.msd r'.dig r'.ndig.toInt.toNat :=
+      congrArg Spec.Slice.ds hsl
+    have hdp : r.exp.toInt + r.ndig.toInt = r'.exp.toInt + r'.ndig.toInt :=
+      congrArg Spec.Slice.dp hsl
+    have hlen : r.ndig.toInt.toNat = r'.ndig.toInt.toNat := by
+      have := congrArg List.length hds
+      rwa [Dg.msd_length, Dg.msd_length] at this
+    have hnd : r.ndig.toInt = r'.ndig.toInt := by
+      have := hwf.n0; have := hwf'.n0; omega
+    refine ⟨r, r', hr, hr', hn.trans hn'.symm, Int64.toInt_inj.mp hnd,
+      Int64.toInt_inj.mp (by omega), ?_, hsl⟩
+    intro t ht
+    have h1 : t < (Dg.msd r.dig r.ndig.toInt.toNat).length := by rw [Dg.msd_length]; exact ht
+    have h2 : t < (Dg.msd r'.dig r'.ndig.toInt.toNat).length := by
+      rw [Dg.msd_length, ← hlen]; exact ht
+    have hget : (Dg.msd r.dig r.ndig.toInt.toNat)[t] = (Dg.msd r'.dig r'.ndig.toInt.toNat)[t] := by
+      simp only [hds]
+    rw [Dg.msd_getElem, Dg.msd_getElem] at hget
+    have hd1 := hwf.dig t ht
+    have hd2 := hwf'.dig t (by rw [← hlen]; exact ht)
+    unfold Dg.isDig at hd1 hd2
+    unfold Dg.dv at hget
+    exact UInt8.toNat_inj.mp (by omega)
+
+/-- **C19 for formatting with a precision.**  The pipeline `digits` ; `round(prec)` that `Decimal.format`
+    runs for the verbs `e`, `f`, `g` with a precision returns, for two finite patterns of the same value,
+    records with the same sign that denote the same digit string and decimal-point position
+    (`Dg.slice`), for every `prec : Int64` (negative ones included). -/
+theorem digits_then_round_encoding_independent (d d' : Gen.Decimal) (digs digs' : Gen.digits)
+    (prec : Int64) (hf : (𝔳[d]).isFin = true) (hd : (𝔳[d]).same 𝔳[d'] = true) :
+    ∃ r0 r r0' r', Gen.Decimal.digits_ d digs = .ok r0 ∧ Gen.digits.round r0 prec = .ok r ∧
+      Gen.Decimal.digits_ d' digs' = .ok r0' ∧ Gen.digits.round r0' prec = .ok r' ∧
+      r.neg = r'.neg ∧ Dg.slice r = Dg.slice r' := by
+  obtain ⟨r0, r0', h0, h0', hneg, hnd, hex, _, hsl⟩ := digits_encoding_independent d d' digs digs' hf hd
+  obtain ⟨_, h1, hwf, _⟩ := Props.C06.digits_total d digs
+  obtain ⟨_, h1', hwf', _⟩ := Props.C06.digits_total d' digs'
+  rw [h0] at h1; cases h1
+  rw [h0'] at h1'; cases h1'
+  obtain ⟨r, hr, hn, _, hlt, hge⟩ :=
+    Props.C07.digits_round_spec r0 prec hwf (Props.C07.digits_expOK d digs r0 h0)
+  obtain ⟨r', hr', hn', _, hlt', hge'⟩ :=
+    Props.C07.digits_round_spec r0' prec hwf' (Props.C07.digits_expOK d' digs' r0' h0')
+  refine ⟨r0, r, r0', r', h0, hr, h0', hr', by rw [hn, hn', hneg], ?_⟩
+  by_cases hp : 0 ≤ prec.toInt
+  · obtain ⟨a1, a2⟩ := hge hp
+    obtain ⟨b1, b2⟩ := hge' hp
+    rw [← hsl] at b1 b2
+    cases hs : Dg.slice r with
+    | mk ds dp =>
+      cases hs' : Dg.slice r' with
+      | mk ds' dp' =>
+        rw [hs] at a1 a2; rw [hs'] at b1 b2
+        simp only at a1 a2 b1 b2
+        rw [a1, a2, b1, b2]
+  · rw [hlt (by omega), hlt' (by omega)]
+    simp only [Dg.slice, hnd, hex]
+    congr 1
+
+/-! ## 8. Conversions -/
+
+theorem int64_encoding_independent_num (d d' : Gen.Decimal) (h : (𝔳[d]).sameNum 𝔳[d'] = true) :
+    Gen.Decimal.Int64_ d = Gen.Decimal.Int64_ d' := by
+  rw [IntConvPf.Int64_eq, IntConvPf.Int64_eq, sat_congr_num _ _ h]
+
+theorem int32_encoding_independent_num (d d' : Gen.Decimal) (h : (𝔳[d]).sameNum 𝔳[d'] = true) :
+    Gen.Decimal.Int32_ d = Gen.Decimal.Int32_ d' := by
+  rw [IntConvPf.Int32_eq, IntConvPf.Int32_eq, sat_congr_num _ _ h]
+
+theorem uint64_encoding_independent_num (d d' : Gen.Decimal) (h : (𝔳[d]).sameNum 𝔳[d'] = true) :
+    Gen.Decimal.Uint64 d = Gen.Decimal.Uint64 d' := by
+  rw [IntConvPf.Uint64_eq, IntConvPf.Uint64_eq, sat_congr_num _ _ h]
+
+theorem uint32_encoding_independent_num (d d' : Gen.Decimal) (h : (𝔳[d]).sameNum 𝔳[d'] = true) :
+    Gen.Decimal.Uint32 d = Gen.Decimal.Uint32 d' := by
+  rw [IntConvPf.Uint32_eq, IntConvPf.Uint32_eq, sat_congr_num _ _ h]
+
+theorem frexp_encoding_independent_num (d d' : Gen.Decimal) (h : (𝔳[d]).sameNum 𝔳[d'] = true) :
+    ∃ f e f' e', Gen.Frexp d = .ok (f, e) ∧ Gen.Frexp d' = .ok (f', e') ∧
+      (𝔳[f]).sameNum 𝔳[f'] = true ∧ e = e' := by
+  obtain ⟨f, e, hf, hv, he⟩ := FrexpPf.Frexp_spec d
+  obtain ⟨f', e', hf', hv', he'⟩ := FrexpPf.Frexp_spec d'
+  obtain ⟨h1, h2⟩ := frexp_congr_num h
+  refine ⟨f, e, f', e', hf, hf', by rw [hv, hv']; exact h1, ?_⟩
+  apply Int64.toInt_inj.mp
+  rw [he, he', h2]
+
+/-- `Payload`: the same payload word, or the same documented panic (not a NaN) -/
+theorem payload_encoding_independent (d d' : Gen.Decimal) (h : (𝔳[d]).same 𝔳[d'] = true) :
+    Gen.Decimal.Payload_ d = Gen.Decimal.Payload_ d' := by
+  rcases same_cases h with ⟨n, p, h1, h2⟩ | ⟨n, h1, h2⟩ | ⟨n, c, e, c', e', h1, h2, _⟩
+  · rw [Props.C15.payload_of_same d n p (by rw [h1]; exact same_refl _),
+      Props.C15.payload_of_same d' n p (by rw [h2]; exact same_refl _)]
+  all_goals
+    have a : Gen.Decimal.IsNaN d = false := by rw [← Enc.interp_isNaN, h1]; rfl
+    have b : Gen.Decimal.IsNaN d' = false := by rw [← Enc.interp_isNaN, h2]; rfl
+    rw [Props.C15.payload_eq, Props.C15.payload_eq, a, b]
+    rfl
+
+/-- **C19 for `Float64` — PARTIAL**: NaN (any payload: always `math.NaN()`), ±Inf, ±0 with any exponent give
+    bit-identical floats.  Missing: finite non-zero operands (only a one-ulp bound is specified for them). -/
+theorem float64_encoding_independent_partial (d d' : Gen.Decimal) (h : (𝔳[d]).sameNum 𝔳[d'] = true)
+    (ht : Gen.Decimal.isSpecial d = true ∨ Gen.Decimal.IsZero d = true) :
+    Gen.Decimal.Float64 d = Gen.Decimal.Float64 d' := Float64_congr_trivial d d' h ht
+
+theorem float32_encoding_independent_partial (d d' : Gen.Decimal) (h : (𝔳[d]).sameNum 𝔳[d'] = true)
+    (ht : Gen.Decimal.isSpecial d = true ∨ Gen.Decimal.IsZero d = true) :
+    Gen.Decimal.Float32 d = Gen.Decimal.Float32 d' := Float32_congr_trivial d d' h ht
+
+/-! ## 9. Abs, Neg, Signbit, IsNaN, IsInf -/
+
+private theorem setNeg_congr (b : Bool) {x x' : Spec.Val} (h : x.same x' = true) :
+    (Enc.setNeg b x).same (Enc.setNeg b x') = true := by
+  rcases same_cases h with ⟨n, p, rfl, rfl⟩ | ⟨n, rfl, rfl⟩ | ⟨n, c, e, c', e', rfl, rfl, hm⟩
+  · exact same_refl _
+  · exact same_refl _
+  · exact (same_fin_iff _ _ _ _ _ _).2 ⟨rfl, hm⟩
+
+theorem abs_encoding_independent (d d' : Gen.Decimal) (h : (𝔳[d]).same 𝔳[d'] = true) :
+    (𝔳[Gen.Abs d]).same 𝔳[Gen.Abs d'] = true := by
+  rw [Enc.interp_Abs, Enc.interp_Abs]; exact setNeg_congr false h
+
+theorem neg_encoding_independent (d d' : Gen.Decimal) (h : (𝔳[d]).same 𝔳[d'] = true) :
+    (𝔳[Gen.Decimal.Neg d]).same 𝔳[Gen.Decimal.Neg d'] = true := by
+  rw [Enc.interp_Neg, Enc.interp_Neg, neg_congr h]; exact setNeg_congr _ h
+
+theorem signbit_encoding_independent (d d' : Gen.Decimal) (h : (𝔳[d]).same 𝔳[d'] = true) :
+    Gen.Decimal.Signbit d = Gen.Decimal.Signbit d' := by
+  rw [← Enc.interp_neg, ← Enc.interp_neg, neg_congr h]
+
+theorem isNaN_encoding_independent (d d' : Gen.Decimal) (h : (𝔳[d]).sameNum 𝔳[d'] = true) :
+    Gen.Decimal.IsNaN d = Gen.Decimal.IsNaN d' := by
+  rw [← Enc.interp_isNaN, ← Enc.interp_isNaN, isNaN_congr h]
+
+theorem isInf_encoding_independent (d d' : Gen.Decimal) (sign : Int64)
+    (h : (𝔳[d]).sameNum 𝔳[d'] = true) :
+    Gen.Decimal.IsInf d sign = Gen.Decimal.IsInf d' sign := by
+  have hi : Gen.Decimal.isInf d = Gen.Decimal.isInf d' := by
+    rw [← Enc.interp_isInf, ← Enc.interp_isInf]
+    rcases sameNum_cases h with ⟨_, _, _, _, a, b⟩ | ⟨_, a, b⟩ | ⟨_, _, _, _, _, a, b, _⟩ <;>
+      rw [a, b] <;> rfl
+  unfold Gen.Decimal.IsInf
+  rw [← hi]
+  cases hc : Gen.Decimal.isInf d
+  · rfl
+  · have hn : (𝔳[d]).isNaN = false := by
+      have := Enc.interp_isInf d
+      rw [hc] at this
+      cases hv : 𝔳[d] <;> rw [hv] at this <;> simp_all [Spec.Val.isInf, Spec.Val.isNaN]
+    rw [← signbit_encoding_independent d d' (same_of_sameNum h hn)]
+
+/-! ## the hypotheses are satisfiable on non-trivial inputs -/
+
+/-- `1.0` (coefficient 10, exponent −1) and `1` (coefficient 1, exponent 0) denote the same value … -/
+theorem ex_one : (𝔳[Gen.compose false ⟨10, 0⟩ 6175]).same 𝔳[Gen.compose false ⟨1, 0⟩ 6176] = true := by
+  decide +kernel
+/-- … as do the negative zeros with exponent fields 0 and 6176 (`-0e-6176`, `-0`) … -/
+theorem ex_zero : (𝔳[(⟨0, 0x8000000000000000⟩ : Gen.Decimal)]).same
+    𝔳[(⟨0, 0xb040000000000000⟩ : Gen.Decimal)] = true := by decide +kernel
+/-- … and `7e-3` with `7000e-6` -/
+theorem ex_seven : (𝔳[Gen.compose true ⟨7, 0⟩ 6173]).same 𝔳[Gen.compose true ⟨7000, 0⟩ 6170] = true := by
+  decide +kernel
+/-- two NaNs with different payloads are `sameNum` (not `same`) -/
+theorem ex_nan : (𝔳[(⟨5, 0x7c00000000000000⟩ : Gen.Decimal)]).sameNum
+    𝔳[(⟨9, 0xfc00000000000000⟩ : Gen.Decimal)] = true := by decide +kernel
+
+example := add_encoding_independent _ _ _ _ 3 .awayFromZero rfl ex_one ex_seven
+example := sub_encoding_independent _ _ _ _ 0 .nearestEven rfl ex_zero ex_zero
+example := mul_encoding_independent_num _ _ _ _ 4 .toNegInf rfl (sameNum_of_same ex_seven) ex_nan
+example := quo_encoding_independent _ _ _ _ 5 .toPosInf rfl ex_one ex_seven
+example := quoRem_encoding_independent _ _ _ _ 1 .nearestAway rfl ex_one ex_seven
+example := round_encoding_independent _ _ 2 0 .nearestEven rfl ex_seven
+example := ceil_encoding_independent _ _ (-3) ex_seven
+example := floor_encoding_independent_num _ _ 1 ex_nan
+example := ldexp_encoding_independent ⟨0⟩ _ _ 6100 .nearestEven rfl ex_seven
+example := cmpAbs_encoding_independent _ _ _ _ (sameNum_of_same ex_one) (sameNum_of_same ex_seven)
+example := sign_encoding_independent _ _ ex_nan
+example := max_encoding_independent _ _ _ _ ex_zero ex_one
+example := fun g => elem_encoding_independent_partial .log g _ _ _ ex_seven
+  (show Spec.specialCase .log 𝔳[Gen.compose true ⟨7, 0⟩ 6173] = some _ by
+    rw [show 𝔳[Gen.compose true ⟨7, 0⟩ 6173] = .fin true 7 (-3) by decide +kernel]; rfl)
+example := pow_encoding_independent_partial _ _ _ _ 0 .nearestEven rfl ex_seven ex_zero (Or.inl (by decide +kernel))
+example := int64_encoding_independent_num _ _ ex_nan
+example := frexp_encoding_independent_num _ _ (sameNum_of_same ex_seven)
+example := float64_encoding_independent_partial _ _ (sameNum_of_same ex_zero) (Or.inr (by decide))
+example := fun a b => digits_encoding_independent _ _ a b (by decide +kernel) ex_seven
+example := fun a b => digits_then_round_encoding_independent _ _ a b 2 (by decide +kernel) ex_seven
 
 end Props.C19
